@@ -23,7 +23,10 @@ CONFIG = dict(
                "slices; theorem decode_results_are_values) on which the model side of pdec2/pdecs/pchk runs; aliasing of message.Decode's result with its input (documented by the code) and of InflateData's "
                "result with pooled storage is not in the model: it is covered by the differential mchain stream (messages held across later decodes). Resource exhaustion (a small deflate body that inflates "
                "to gigabytes; InflateData has no output bound) is outside the model: `crash` is an out-of-range access only. Encode REPLACES message.Data by the deflated bytes (encodeMsgM, theorem "
-               "reencode_witness): the round trip is about one Encode per message object. The theorems are about the model; the differential run ties it to the code on sampled inputs only.",
+               "reencode_witness): the round trip is about one Encode per message object. The theorems are about the model; the differential run ties it to the code on sampled inputs only. "
+               "The tie names no unexported identifier of /repo (no `go test -overlay` shim): the unexported tcpPlayerConn and the client's unexported read loop are reached through exported constructors / entry points "
+               "(NewTCPAcceptor+ListenAndServe+GetConnChan, client.New+ConnectTo) with the socket / listener / packet queue swapped in by field TYPE; if that cannot be done on some tree the ops that need it are "
+               "skipped and counted (whitebox=unavailable) instead of failing the build.",
     lean_targets=["Cell2v.Props.C06", "modeld_c06"],
     driver="modeld_c06",
     driver_root="Cell2v.Driver.C06",
@@ -37,7 +40,6 @@ CONFIG = dict(
                        "session_script_never_crashes", "session_script_closed_last", "session_status_logic", "session_script_delivers",
                        "decode_encode_dictionary_growth", "SetDictionary_grows", "parseHeader_checked_total", "decode_results_are_values"],
     harness_pkg="./c06",
-    go_flags=["-overlay=/verif/harness/c06/overlay/overlay.json"],
     mode="diff",
     runs={
         "quick": [dict(name="main", env={"VERIF_N": "4000"}, timeout=240)],
@@ -78,16 +80,21 @@ CONFIG = dict(
         "which the generator never puts into a key",
         "aliasing of the packet decoder's results: memory model Cell2v.Codec.Heap/PRef/decodeH (Decode copies its input into a fresh decoder-private buffer and returns slices of it; "
         "theorem decode_results_are_values); that the Go decoder really allocates per call and never points into its input is tied by the pdec2/pdecs/pchk/crl streams (inputs are overwritten after the call) only",
-        "white-box shim harness/c06/overlay/client_export_verif.go (mapped into package pomelonet/client with `go test -overlay`; nothing under /repo is modified): builds a Client with New() and returns "
-        "one iteration of readServerMessages (Client.readPackets on one long-lived bytes.Buffer); the harness's fragConn stands for the socket, every fragment is shorter than the 1024-byte scratch "
-        "so that one round consumes one fragment",
+        "client read loop (crl), no shim and no unexported identifier named (harness/c06/rig_test.go): a Client from client.New() is started by the exported ConnectTo on a loopback socket inside one "
+        "long-lived testing/synctest bubble; the ONE field of type net.Conn of the Client is then replaced BY TYPE (reflect + unsafe) with the harness's gated stand-in socket, one Heartbeat frame on the "
+        "dialled socket makes the real read loop come round to it, and once every goroutine of the client is parked (synctest.Wait) the ONE field of type chan *packet.Packet is replaced with the harness's "
+        "queue, so the packets the loop publishes are seen by the harness only (the client's own consumer stays parked on the original queue); every fragment is shorter than the 1024-byte scratch and is released "
+        "only when the loop is parked in Read again, so one round consumes one fragment; ` readerr` = the loop gave up before all fragments were read. Assumes the loop re-reads the conn / queue fields on every round "
+        "(a self-test at start-up checks it; if it fails, or a field type is not unique, crl ops are not run: histogram key whitebox=unavailable, whitebox.client=unavailable)",
         "encoding/json (handshake body) is an oracle: the harness lists in `hsok=` the handshake bodies of the script that json.Unmarshal into session.HandshakeData accepts",
         "mchain/sscr/enc2: zlib is the table of (plain, deflated) pairs recorded from the real DeflateData for the payloads of the op; raw Data bodies in session scripts have the gzip bit cleared",
         "session stream: the harness's scripted PlayerConn replaces the TCP/WS acceptor conn (GetNextMessage hands over one framed packet, as tcpPlayerConn does); "
         "the harness goroutine plays the owner service (drains sche.Sche); a panic on the reader goroutine kills the harness process and is reported by bin/check "
         "as pseudo-op <harness-exit ...>, which the spec monitor maps to C06/server-crash",
-        "white-box shim harness/c06/overlay/export_verif.go (one line, mapped into package acceptor with `go test -overlay`; nothing under /repo is modified): builds the unexported "
-        "tcpPlayerConn around a net.Conn exactly as TCPAcceptor.serve does; the harness's fragConn (one Read never crosses a fragment boundary, io.EOF at the end) stands for the TCP socket; "
+        "stream layer (srt/gnm/mchain), no shim and no unexported identifier named (harness/c06/rig_test.go): acceptor.NewTCPAcceptor + ListenAndServe run the real accept loop; the ONE field of type net.Listener "
+        "of the TCPAcceptor is replaced BY TYPE (reflect + unsafe) with a listener whose Accept hands out the harness's fragConn (one Read never crosses a fragment boundary, io.EOF at the end; it stands for the TCP socket), "
+        "and the exported GetConnChan yields the PlayerConn the real accept loop built around it (self-test at start-up; without a unique net.Listener field the rig falls back to a real loopback TCP connection, "
+        "histogram key whitebox.acceptor=tcp-loopback, and when no listener can be had the ops are not run: whitebox=unavailable); "
         "the model reads fragments with readN = ReadAll(LimitReader(conn, n)) at fragment granularity (theorem stream_fragmentation_independent: only the concatenation matters)",
         "zrt: payload equality is decided inside the harness (string compare of inflated vs. original), the observation carries only length and the equality flag; the model side is the "
         "abstract inverse pair inflate(deflate x) = x for every size",
